@@ -93,8 +93,11 @@ func vtC04GenCfg(r *rand.Rand, G int64, npods int64, groupMask int64) vtC04Cfg {
 }
 
 func vtC04Gen(r *rand.Rand, i int) (string, []int64) {
-	style := []string{"protocol", "protocol", "protocol", "racy", "racy", "chaos"}[r.Intn(6)]
+	style := []string{"protocol", "protocol", "protocol", "racy", "racy", "chaos", "resubmit", "resubmit"}[r.Intn(8)]
 	G := int64(1 + r.Intn(3))
+	if style == "resubmit" { // life cycle of a gang group: run, re-declare, tear down, submit again under the same names
+		G = int64(2 + r.Intn(2))
+	}
 	h := &vtC04Hdr{G: G, acfg: make([]vtC04Cfg, G+1)}
 	// the gang group: a random subset of >= 2 gangs shares one group, the rest are singletons
 	var groupMask int64
@@ -153,10 +156,15 @@ func vtC04Gen(r *rand.Rand, i int) (string, []int64) {
 		maxN = 14
 	}
 	N := 4 + r.Intn(maxN-3)
+	if style == "resubmit" {
+		N = 14 + r.Intn(19)
+	}
+	// resubmit: ops [0,t1) build and run the gangs, [t1,t2) tear everything down, [t2,N) submit again
+	t1, t2 := N*9/20, N*9/20+N/4
 	var ops [][6]int64
 	released := map[int64]bool{} // allowed by the plugin, binding not finished yet
 	rejected := map[int64]bool{} // rejected by the plugin, Unreserve not run yet
-	stride := int(4 + 12*G)
+	stride := int(6 + 14*G)
 	// last observation
 	var fw int64
 	gangs := make([][]int64, G+1)
@@ -226,6 +234,31 @@ func vtC04Gen(r *rand.Rand, i int) (string, []int64) {
 		if fws := vtC04Bits(fw); len(fws) > 0 {
 			add(5, 8, vtC04Pick(r, fws), 0, 0, 0, 0) // permit timeout
 			add(3, 3, vtC04Pick(r, fws), 0, 0, 0, 0) // deleted while waiting
+		}
+		if style == "resubmit" {
+			anyBound := false
+			for g := int64(1); g <= G; g++ {
+				if gangs[g][0] == 1 && gangs[g][11] != 0 {
+					anyBound = true
+				}
+			}
+			if len(ops) < t1 && anyBound { // re-declare the group of a gang that is already running
+				g := int64(1 + r.Intn(int(G)))
+				c := pgcfg[g]
+				c.mask = int64(r.Intn(1 << uint(G)))
+				pgop(14, 5, g, c)
+			}
+			if len(ops) >= t1 && len(ops) < t2 {
+				for g := int64(1); g <= G; g++ {
+					if gangs[g][0] == 0 {
+						continue
+					}
+					if ch := vtC04Bits(gangs[g][8]); len(ch) > 0 {
+						add(60, 3, vtC04Pick(r, ch), 0, 0, 0, 0)
+					}
+					add(30, 6, g, 0, 0, 0, 0)
+				}
+			}
 		}
 		racy := 1
 		if style == "racy" {
